@@ -21,6 +21,20 @@ Definition dot (a x : triple) : S := (fp a * fp x + fm a * fm x + fz a * fz x)%K
 Record mat3 : Type := mkM { row0 : triple; row1 : triple; row2 : triple }.
 Definition mv (m : mat3) (x : triple) := mk3 (dot (row0 m) x) (dot (row1 m) x) (dot (row2 m) x).
 
+(* 3x3 matrix algebra (used by '@' combination and by the coefficient proofs) *)
+Definition col0 (m : mat3) := mk3 (fp (row0 m)) (fp (row1 m)) (fp (row2 m)).
+Definition col1 (m : mat3) := mk3 (fm (row0 m)) (fm (row1 m)) (fm (row2 m)).
+Definition col2 (m : mat3) := mk3 (fz (row0 m)) (fz (row1 m)) (fz (row2 m)).
+Definition rowmul (r : triple) (b : mat3) := mk3 (dot r (col0 b)) (dot r (col1 b)) (dot r (col2 b)).
+Definition mmul (a b : mat3) := mkM (rowmul (row0 a) b) (rowmul (row1 a) b) (rowmul (row2 a) b).
+Definition tsub (x y : triple) := mk3 (fp x - fp y)%K (fm x - fm y)%K (fz x - fz y)%K.
+Definition madd (a b : mat3) := mkM (tadd (row0 a) (row0 b)) (tadd (row1 a) (row1 b)) (tadd (row2 a) (row2 b)).
+Definition msub (a b : mat3) := mkM (tsub (row0 a) (row0 b)) (tsub (row1 a) (row1 b)) (tsub (row2 a) (row2 b)).
+Definition mscale (c : S) (a : mat3) := mkM (tscale c (row0 a)) (tscale c (row1 a)) (tscale c (row2 a)).
+Definition mid : mat3 := mkM (mk3 k1 k0 k0) (mk3 k0 k1 k0) (mk3 k0 k0 k1).
+(* diagonal matrix of a ScalarOp coefficient triple *)
+Definition mdiag (a : triple) : mat3 := mkM (mk3 (fp a) k0 k0) (mk3 k0 (fm a) k0) (mk3 k0 k0 (fz a)).
+
 Definition teqb (x y : triple) : bool :=
   keqb (fp x) (fp y) && keqb (fm x) (fm y) && keqb (fz x) (fz y).
 
@@ -60,4 +74,6 @@ Arguments dot {S}. Arguments mkM {S}. Arguments row0 {S}. Arguments row1 {S}.
 Arguments row2 {S}. Arguments mv {S}. Arguments teqb {S}. Arguments mkSM {S}.
 Arguments st {S}. Arguments equ {S}. Arguments nstate {S}. Arguments resize {S}.
 Arguments centre {S}.
+Arguments mmul {S}. Arguments madd {S}. Arguments msub {S}. Arguments mscale {S}. Arguments mid {S}. Arguments mdiag {S}. Arguments tsub {S}.
+Arguments col0 {S}. Arguments col1 {S}. Arguments col2 {S}. Arguments rowmul {S}.
 Arguments tab {A}. Arguments nthZ {A}. Arguments getZ {A}. Arguments resize_list {A}.
